@@ -2,6 +2,7 @@ import TantivyModel.Proofs.AggAlgebra
 import TantivyModel.Proofs.AggSpecEq
 import TantivyModel.Proofs.AggTrunc
 import TantivyModel.Proofs.AggCut
+import TantivyModel.Proofs.AggExtStats
 /-!
 # C14 — Aggregations equal a direct computation and do not depend on partitioning
 
@@ -261,6 +262,52 @@ theorem C14_composite_key_order (R d d' r r' : Int) (hr : 0 ≤ r ∧ r < R) (hr
       omega
     · subst he; omega
 
+/-! ### extended_stats: Welford / Chan over ℚ, and where sigma comes from -/
+
+/-- one segment: after the Welford updates of `collect` the accumulator holds exactly
+`count = n`, `sum = Σv`, `sum_of_squares = Σv²`, `mean = Σv/n` and `M2 = Σv² − (Σv)²/n`
+(`= Σ(v − mean)²`), for every list of values -/
+theorem C14_extstats_collect_direct (σ : ℚ) (xs : List ℚ) :
+    (ExtS.ofList σ xs).count = xs.length ∧ (ExtS.ofList σ xs).sum = xs.sum
+      ∧ (ExtS.ofList σ xs).q = sumSq xs ∧ (ExtS.ofList σ xs).m2 = extDirectM2 xs
+      ∧ (ExtS.ofList σ xs).mean = (if xs.length = 0 then 0 else xs.sum / (xs.length : ℚ)) := by
+  have h := ExtS.describes_ofList σ xs
+  exact ⟨h.count, h.sum, h.q, by rw [h.m2]; rfl, h.mean⟩
+
+/-- Chan's parallel merge (`merge_fruits`) of two segments = the direct computation over the
+concatenated values, including the cases where one side is empty -/
+theorem C14_extstats_chan_merge (σ τ : ℚ) (xs ys : List ℚ) :
+    (ExtS.merge (ExtS.ofList σ xs) (ExtS.ofList τ ys)).count = (xs ++ ys).length
+      ∧ (ExtS.merge (ExtS.ofList σ xs) (ExtS.ofList τ ys)).sum = (xs ++ ys).sum
+      ∧ (ExtS.merge (ExtS.ofList σ xs) (ExtS.ofList τ ys)).q = sumSq (xs ++ ys)
+      ∧ (ExtS.merge (ExtS.ofList σ xs) (ExtS.ofList τ ys)).m2 = extDirectM2 (xs ++ ys) := by
+  have h := ExtS.describes_merge (ExtS.describes_ofList σ xs) (ExtS.describes_ofList τ ys)
+  refine ⟨by rw [h.count, List.length_append], by rw [h.sum, List.sum_append],
+    by rw [h.q]; simp [sumSq, List.map_append, List.sum_append], ?_⟩
+  rw [h.m2]
+  simp only [extDirectM2, List.length_append, List.sum_append, List.map_append, sumSq]
+
+/-- **Any partition, any merge schedule, placeholders anywhere.**  `t` is an arbitrary schedule of
+`merge_fruits` calls over per-segment value lists; a leaf without values and the absence of any
+fruit are `empty_from_req` placeholders that carry the DEFAULT sigma 2 — also as the left
+operand of a merge (the situation of the seeded change C14-D).  The result has the count, sum,
+sum of squares, mean and M2 of the direct computation over all values, and as soon as there is
+one value it carries the REQUEST's sigma: a placeholder's sigma never survives. -/
+theorem C14_extstats_any_schedule (σ : ℚ) (t : MTree (List ℚ)) :
+    let r := extTreePlaceholders σ t
+    let all := t.leaves.flatten
+    r.count = all.length ∧ r.sum = all.sum ∧ r.q = sumSq all ∧ r.m2 = extDirectM2 all
+      ∧ r.mean = (ExtS.ofList σ all).mean ∧ (all ≠ [] → r.sigma = σ) := by
+  intro r all
+  have h := extTreePlaceholders_describes σ t
+  have h2 := ExtS.describes_ofList σ all
+  refine ⟨h.count, h.sum, h.q, by rw [h.m2]; rfl, (h.numeric_eq h2).2.2.2.1, ?_⟩
+  intro hne
+  apply extTreePlaceholders_good σ t
+  rw [h.count]
+  intro h0
+  exact hne (List.length_eq_zero_iff.1 h0)
+
 /-- merging after a serialisation round trip that is the identity on intermediate trees gives
 the same result (that postcard's round trip *is* the identity is tested by the harness, not
 proved) -/
@@ -363,6 +410,13 @@ example : compKeys [⟨0, 3, false⟩, ⟨1, 2, true⟩] [(0, [0, 2]), (1, [1])]
 example : evalAgg Int (.composite [⟨0, 3, false⟩, ⟨1, 2, true⟩] 2 (some 0) .none)
     [[(0, [0, 2]), (1, [1])], [(0, [2]), (1, [0, 1])], [(0, [1])]] = [(4, 2, ()), (5, 1, ())] := by
   decide +kernel
+/-- placeholder (default sigma 2) as the LEFT operand, request sigma 3: the merged result carries 3 -/
+example : (extTreePlaceholders 3 (.node (.leaf []) (.leaf [1, 2, 3, 4]))).sigma = 3
+    ∧ (extTreePlaceholders 3 (.node (.leaf []) (.leaf [1, 2, 3, 4]))).m2 = 5 := by
+  constructor
+  · exact (C14_extstats_any_schedule 3 (.node (.leaf []) (.leaf [1, 2, 3, 4]))).2.2.2.2.2 (by simp [MTree.leaves])
+  · rw [(C14_extstats_any_schedule 3 (.node (.leaf []) (.leaf [1, 2, 3, 4]))).2.2.2.1]
+    norm_num [extDirectM2, MTree.leaves]
 example : [0, 10, 20].Pairwise (fun a b : Int => a < b) := by decide
 example : ([1, 2, 3] : List Int).Nodup ∧ ∀ d ∈ exTDocs, ∀ k ∈ termKeys ⟨0, Option.none, 2, 2, 1, .countDesc⟩ d, k ∈ [1, 2, 3] := by
   decide
